@@ -120,9 +120,12 @@ func (c *Ctx) c06Expr(r *gen.R, doc ref.V) string {
 	t := strings.ReplaceAll(b, "%s", inner)
 	if r.Chance(30) {
 		b2 := gen.Pick(r, c06Builders[:len(c06Builders)-1])
-		t = strings.ReplaceAll(b2, "%s", "("+t+")")
 		if strings.Contains(b2, "(%s") || strings.HasPrefix(b2, "[") || strings.HasPrefix(b2, "{") {
+			// argument / element position: no parentheses needed (and a
+			// parenthesised argument is a different node for the evaluator)
 			t = strings.ReplaceAll(b2, "%s", t)
+		} else {
+			t = strings.ReplaceAll(b2, "%s", "("+t+")")
 		}
 	}
 	return t
@@ -132,19 +135,35 @@ func c06History(c *Ctx, idx int) {
 	r := c.Rand("")
 	ndocs := 2 + r.Intn(3)
 	docs := make([]ref.V, ndocs)
-	godocs := make([]any, ndocs)
-	snaps := make([]string, ndocs)
 	for i := range docs {
 		docs[i] = gen.Doc(r, 3)
 		if i > 0 && r.Chance(30) {
 			docs[i] = gen.Clone(docs[0]) // an equal but distinct document
 		}
-		godocs[i] = toGoCanary(r, docs[i])
-		snaps[i] = deepSnap(godocs[i])
 	}
 	text := c.c06Expr(r, docs[0])
 	if strings.Contains(text, "pad_") {
 		return
+	}
+	c06Calls(c, r, text, docs)
+}
+
+// c06Directed: every ordering / reversing / merging function applied to every
+// way of handing it an array of the caller's document (or a literal of the
+// compiled expression) without a copy, over unsorted homogeneous arrays.
+func c06Directed(c *Ctx, idx int) {
+	r := c.Rand("")
+	d, _ := ref.FromJSON(c07DirectedDoc)
+	c06Calls(c, r, c07Directed()[idx], []ref.V{d, gen.Clone(d)})
+}
+
+func c06Calls(c *Ctx, r *gen.R, text string, docs []ref.V) {
+	ndocs := len(docs)
+	godocs := make([]any, ndocs)
+	snaps := make([]string, ndocs)
+	for i := range docs {
+		godocs[i] = toGoCanary(r, docs[i])
+		snaps[i] = deepSnap(godocs[i])
 	}
 	pr := ref.Parse(text)
 	e, lc := c.LibCompile(text)
@@ -258,13 +277,183 @@ func c06Must(c *Ctx, idx int) {
 	c.Nontrivial(text)
 }
 
+// syncInPlace makes the Go value g equal to the model value v while keeping
+// the identity (map header, backing array) of every container whose kind
+// still matches: what a caller does when it edits its document between calls.
+func syncInPlace(g any, v ref.V) any {
+	switch x := v.(type) {
+	case ref.Num:
+		return ref.JSONNumber(x)
+	case *ref.Arr:
+		gs, ok := g.([]any)
+		if !ok || gs == nil || cap(gs) < len(x.E) {
+			gs = make([]any, len(x.E), len(x.E)+4)
+		}
+		old := len(gs)
+		gs = gs[:len(x.E)]
+		for i, e := range x.E {
+			var prev any
+			if i < old {
+				prev = gs[i]
+			}
+			gs[i] = syncInPlace(prev, e)
+		}
+		return gs
+	case *ref.Obj:
+		gm, ok := g.(map[string]any)
+		if !ok || gm == nil {
+			gm = make(map[string]any, len(x.Keys))
+		}
+		for k := range gm {
+			if _, keep := x.M[k]; !keep {
+				delete(gm, k)
+			}
+		}
+		for _, k := range x.Keys {
+			gm[k] = syncInPlace(gm[k], x.M[k])
+		}
+		return gm
+	}
+	return v
+}
+
+// editDoc returns a modified copy of v: mostly shape-preserving edits (one
+// leaf replaced, two elements swapped), sometimes a member or element added
+// or removed.
+func editDoc(r *gen.R, v ref.V) ref.V {
+	v = gen.Clone(v)
+	var containers []ref.V
+	var walk func(x ref.V)
+	walk = func(x ref.V) {
+		switch y := x.(type) {
+		case *ref.Arr:
+			containers = append(containers, y)
+			for _, e := range y.E {
+				walk(e)
+			}
+		case *ref.Obj:
+			containers = append(containers, y)
+			for _, k := range y.Keys {
+				walk(y.M[k])
+			}
+		}
+	}
+	walk(v)
+	if len(containers) == 0 {
+		return gen.Doc(r, 2)
+	}
+	nedits := 1 + r.Intn(2)
+	for n := 0; n < nedits; n++ {
+		switch y := gen.Pick(r, containers).(type) {
+		case *ref.Arr:
+			switch {
+			case len(y.E) == 0 || r.Chance(12):
+				y.E = append(y.E, gen.Scalar(r))
+			case r.Chance(12):
+				y.E = y.E[:len(y.E)-1]
+			case len(y.E) > 1 && r.Chance(35):
+				i, j := r.Intn(len(y.E)), r.Intn(len(y.E))
+				y.E[i], y.E[j] = y.E[j], y.E[i]
+			default:
+				i := r.Intn(len(y.E))
+				if _, leaf := y.E[i].(*ref.Arr); !leaf || r.Chance(30) {
+					y.E[i] = gen.Scalar(r)
+				}
+			}
+		case *ref.Obj:
+			switch {
+			case len(y.Keys) == 0 || r.Chance(12):
+				y.Set(gen.Pick(r, gen.Keys), gen.Scalar(r))
+			case len(y.Keys) > 1 && r.Chance(30):
+				// two members exchange their values: same keys, same sizes
+				a, b := gen.Pick(r, y.Keys), gen.Pick(r, y.Keys)
+				y.M[a], y.M[b] = y.M[b], y.M[a]
+			default:
+				k := gen.Pick(r, y.Keys)
+				y.M[k] = gen.Scalar(r)
+			}
+		}
+	}
+	return v
+}
+
+// c06Edited: the caller edits its document in place between calls; every call
+// (compiled and one-shot, on the very same Go containers) must see the
+// document as it is now, i.e. agree with a fresh Search on a deep copy.
+func c06Edited(c *Ctx, idx int) {
+	r := c.Rand("")
+	cur := gen.Doc(r, 3)
+	if _, ok := cur.(*ref.Arr); !ok {
+		if _, ok := cur.(*ref.Obj); !ok {
+			cur = gen.Object(r, 3)
+		}
+	}
+	text := c.c06Expr(r, cur)
+	if strings.Contains(text, "pad_") {
+		return
+	}
+	pr := ref.Parse(text)
+	e, lc := c.LibCompile(text)
+	if lc.Err != nil || lc.Panic != nil {
+		return
+	}
+	var g any
+	g = syncInPlace(nil, cur)
+	nsteps := 3 + r.Intn(5)
+	nontrivial := false
+	for k := 0; k < nsteps; k++ {
+		if k > 0 {
+			cur = editDoc(r, cur)
+			g = syncInPlace(g, cur)
+		}
+		gotE := c.LibExprSearch(e, text, g)
+		gotS := c.LibSearch(text, g)
+		if gotE.Panic != nil || gotS.Panic != nil {
+			return
+		}
+		fresh := c.LibSearch(text, ref.ToGo(cur, ref.JSONNumber))
+		m := ref.SearchParsed(pr, cur)
+		for which, got := range []LibOut{gotE, gotS} {
+			same := false
+			if !m.Unspec {
+				_, ok1, _ := Agree(m, got)
+				_, ok2, _ := Agree(m, fresh)
+				same = ok1 == ok2
+				if m.Fault != 0 && got.Err != nil && fresh.Err != nil && m.Fault&got.Cats != 0 && m.Fault&fresh.Cats != 0 {
+					same = true
+				}
+			} else if Enumerates(text) {
+				same = true
+			} else {
+				same = SameOutcome(fresh, got, false)
+			}
+			if !same {
+				c.Report(Violation{Rule: "C06/stale-after-edit", Expr: text, Data: gen.Describe(g), Got: ShowOut(got), Want: ShowOut(fresh), Detail: fmt.Sprintf("step %d: the caller edited its document in place; %s on the same containers differs from a fresh Search on a copy", k+1, []string{"Expression.Search", "one-shot Search"}[which])})
+			}
+		}
+		if gotE.Err == nil && k > 0 {
+			switch x := gotE.Res.(type) {
+			case []any:
+				nontrivial = nontrivial || len(x) > 0
+			case map[string]any:
+				nontrivial = nontrivial || len(x) > 0
+			}
+		}
+	}
+	if nontrivial {
+		c.Nontrivial(text, ref.ToJSONText(cur), "edited")
+	}
+}
+
 func init() {
 	Register(&Property{
 		ID:            "C06",
-		Rule:          "histories of 3-8 Expression.Search calls of one compiled expression over 2-4 documents with repeats (d1 dx d1 dy ...); expressions biased to functions and selectors that build or reorder containers (sort, sort_by, reverse, merge, group_by, from_items, to_array, [*], slices, flatten, multi-select, filters, literals returned by reference and then sorted/reversed/merged); every slice of every document carries 1-3 spare capacity slots filled with canaries; per call: outcome = fresh one-shot Search of the same text on a deep copy, deep snapshot of every document unchanged (dynamic types, values, lengths, capacity tails, container identities), AST fingerprint of the compiled expression unchanged (hook), every earlier result still equal to the snapshot taken when it was returned; MustCompile panics exactly when Compile fails (corpus expressions and mutants); non-trivial = a history that returned a non-empty container; distinct by (expression, first document)",
+		Rule:          "histories of 3-8 Expression.Search calls of one compiled expression over 2-4 documents with repeats (d1 dx d1 dy ...); expressions biased to functions and selectors that build or reorder containers (sort, sort_by, reverse, merge, group_by, from_items, to_array, [*], slices, flatten, multi-select, filters, literals returned by reference and then sorted/reversed/merged); plus a directed list (every ordering/reversing/merging function x every way of passing an array of the document or a literal without a copy: x, x[*], x[:], x[], x[?`true`], to_array(x), (x), x | @, ...); every slice of every document carries 1-3 spare capacity slots filled with canaries; per call: outcome = fresh one-shot Search of the same text on a deep copy, deep snapshot of every document unchanged (dynamic types, values, lengths, capacity tails, container identities), AST fingerprint of the compiled expression unchanged (hook), every earlier result still equal to the snapshot taken when it was returned; edited-in-place stream: the caller edits its document in place between calls (leaf replaced, elements/values swapped, member added or removed; container identities kept) and both Expression.Search and one-shot Search on those same containers must equal a fresh Search on a deep copy of the current content; MustCompile panics exactly when Compile fails (corpus expressions and mutants); non-trivial = a history that returned a non-empty container; distinct by (expression, first document)",
 		MinNontrivial: 1000,
 		Streams: []Stream{
 			{Name: "histories", N: func(c *Ctx) int { return tierN(c, 8000, 600000) }, Run: c06History},
+			{Name: "directed", N: func(c *Ctx) int { return len(c07Directed()) }, Run: c06Directed, Exhaustive: true},
+			{Name: "edited-in-place", N: func(c *Ctx) int { return tierN(c, 5000, 300000) }, Run: c06Edited},
 			{Name: "mustcompile", N: func(c *Ctx) int { return tierN(c, 10000, 100000) }, Run: c06Must},
 		},
 	})
